@@ -431,11 +431,11 @@ class World:
         t0 = time.time()
         p = subprocess.Popen([self.grog, "build", "//..."], cwd=self.ws, env=self.env(), stdout=subprocess.PIPE, stderr=subprocess.STDOUT, text=True,
                              start_new_session=True)
-        sig_at = None
+        sig_at, sig_ns = None, None
         if interrupt:
             time.sleep(interrupt["delay"])
             if p.poll() is None:
-                sig_at = time.time()
+                sig_at, sig_ns = time.time(), time.time_ns()
                 try:
                     os.kill(p.pid, getattr(signal, interrupt["signal"]))
                 except ProcessLookupError:
@@ -449,8 +449,10 @@ class World:
             rc = 124
         t_exit = time.time()
         wall = t_exit - t0
+        shells_left = []
         if interrupt:
-            time.sleep(0.3)
+            time.sleep(0.5)
+            shells_left = [(pid, comm) for pid, comm in session_comms(p.pid) if comm in ("sh", "dash", "bash", "ash", "ksh", "zsh")]
         # whatever the build left behind in its session (orphans of killed shells) must not disturb later builds' traces
         for pid in session_pids(p.pid):
             try:
@@ -458,7 +460,7 @@ class World:
             except OSError:
                 pass
         return {"rc": rc, "out": out, "wall": wall, "trace": self.read_trace(), "sig_latency": (t_exit - sig_at) if sig_at else None,
-                "signalled": sig_at is not None}
+                "signalled": sig_at is not None, "sig_ns": sig_ns, "shells_left": shells_left}
 
     def taint(self, ids):
         labels = [f"//pkg:{name(self.T[i])}" for i in ids]
@@ -515,6 +517,21 @@ class World:
 
     def cleanup(self):
         shutil.rmtree(self.d, ignore_errors=True)
+
+
+def session_comms(sid):
+    out = []
+    for p in os.listdir("/proc"):
+        if p.isdigit():
+            try:
+                st = open(f"/proc/{p}/stat").read()
+                rp = st.rindex(")")
+                f = st[rp + 2:].split()
+                if int(f[3]) == sid and f[0] != "Z":
+                    out.append((int(p), st[st.index("(") + 1:rp]))
+            except (OSError, ValueError, IndexError):
+                pass
+    return out
 
 
 def session_pids(sid):
@@ -630,6 +647,7 @@ def run_world(ctx, wname, world):
             summ = check_build(w, world, b, anc, ids, succeeded_ever, need_run, disturbed, bool(intr and b["signalled"]), bad)
             summ["index"] = bi
             res["builds"].append(summ)
+            world["_after_interrupt"] = bool(intr and b["signalled"])
             if b["rc"] == 124:
                 break
             disturbed = False
@@ -652,6 +670,8 @@ def check_build(w, world, b, anc, ids, succeeded_ever, need_run, disturbed, inte
     def V(prop, sig, msg):
         bad.append((prop, sig, msg))
 
+    if world.get("_after_interrupt") and (rc == 124 or "Another grog build" in out):
+        V("C18", "next-build-cannot-acquire-lock", "the build after the interrupted one " + ("did not finish" if rc == 124 else "had to wait for the workspace lock"))
     # ---- C04: termination, crash --------------------------------------------------------------------------------------
     if rc == 124:
         V("C04", "build-hang", f"grog build did not return within {WALL} s" + (" after " + world["interrupt"]["signal"] if interrupted else ""))
@@ -746,6 +766,25 @@ def check_build(w, world, b, anc, ids, succeeded_ever, need_run, disturbed, inte
     if peak > W:
         V("C03", "more-commands-than-workers", f"{peak} commands ran at the same time with num_workers={W}: {sorted(what)[:8]}")
     if interrupted:
+        signame = world["interrupt"]["signal"]
+        finished = "completed successfully" in out
+        if rc == 0 and not finished:
+            V("C18", "interrupt-exit-zero", f"the build was interrupted by {signame} before it finished but exited 0")
+        if b["sig_latency"] is not None and b["sig_latency"] > 5:
+            V("C18", "interrupt-slow-exit", f"grog exited {b['sig_latency']:.1f} s after {signame} (bound 5 s)")
+        if b.get("sig_ns"):
+            late = sorted(name(T[i]) for i, ss in starts.items() if any(x > b["sig_ns"] + 0.5e9 for x in ss))
+            late += sorted("check " + cid for s0, _, cid in check_iv if s0 > b["sig_ns"] + 0.5e9)
+            if late:
+                V("C18", "command-started-after-signal", f"commands started more than 0.5 s after {signame}: {late[:6]}")
+            survivors = sorted(name(T[i]) for i in started if starts[i][0] < b["sig_ns"] and i in exits and exits[i][1] > b["sig_ns"] + 1.5e9)
+            if survivors:
+                V("C18", "shell-survived-signal", f"target shells of {survivors} were running at {signame} and still reached their end more than 1.5 s later")
+        if b.get("shells_left"):
+            V("C18", "target-shell-survived-grog", f"{signame}: target shell(s) {b['shells_left']} still run 0.5 s after grog exited")
+        entries = w.target_cache_entries()
+        if cfg["enable_cache"] and entries > len(succeeded_ever | ok_now):
+            V("C18", "interrupted-target-cached", f"{entries} target results cached after the interrupt but only {len(succeeded_ever | ok_now)} targets ever completed")
         # nothing more is required of an interrupted build. What completed before the signal may or may not have been
         # recorded: it counts as built for the upper bound on cache entries and is no longer *required* to run
         succeeded_ever |= ok_now
@@ -833,7 +872,17 @@ def check_build(w, world, b, anc, ids, succeeded_ever, need_run, disturbed, inte
 # driver used by the property checks
 # ------------------------------------------------------------------------------------------------------------------
 
-def run_worlds(ctx, nworlds, focus, threads=4):
+def force_interrupt(world, rng):
+    """C18: every world gets an interrupt, on a build that is followed by another one"""
+    nb = sum(1 for st in world["history"] if st["op"] == "build")
+    if nb == 1:
+        world["history"] += [{"op": "nothing"}, {"op": "build"}]
+        nb = 2
+    world["interrupt"] = {"signal": rng.choice(["SIGINT", "SIGTERM"]), "delay": rng.choice([0.05, 0.15, 0.3, 0.5, 0.8, 1.2]), "build": rng.randrange(nb - 1)}
+    return world
+
+
+def run_worlds(ctx, nworlds, focus, threads=4, interrupt_all=False):
     """Runs `nworlds` random worlds (seeded from ctx.rng). A world with oracle failures is run a second time in a fresh
     workspace; only failures whose signature repeats are returned as confirmed (timing / scheduling dependent ones included:
     a real defect of this kind shows up again, a scheduling accident does not)."""
@@ -844,9 +893,12 @@ def run_worlds(ctx, nworlds, focus, threads=4):
 
     def one(k, seed):
         world = gen_world(random.Random(seed), focus)
+        if interrupt_all:
+            force_interrupt(world, random.Random(seed + 1))
         r = run_world(ctx, f"world-{focus}-{k}", world)
         r["seed"] = seed
         if r["bad"]:
+            world.pop("_after_interrupt", None)
             r2 = run_world(ctx, f"world-{focus}-{k}-again", world)
             sig2 = {(p, s) for p, s, _ in r2["bad"]}
             r["unconfirmed"] = [(p, s) for p, s, _ in r["bad"] if (p, s) not in sig2]
